@@ -48,6 +48,9 @@ for metric in (L1, LINF):
     quick.append(job("c07.range", secs=90, n=2, d=1, metric=metric, leaf=2))
 quick.append(job("c07.range", secs=120, jobs=4, n=2, d=2, metric=L1, leaf=1))
 
+# radii that are rounded square roots (and the doubles next to them) over integer lattice points: concrete f64 runs of
+# the three index kinds, membership decided exactly; the solver enumerates the 972 configurations (found F45)
+quick.append(job("c07.boundary", secs=120))
 thorough = list(quick)
 for kind in (BALL, KD, LIN):
     for metric in (L1, LINF):
@@ -58,4 +61,10 @@ for metric in (L1, LINF):
     thorough.append(job("c07.range", secs=900, jobs=16, n=3, d=2, metric=metric, leaf=1))
     thorough.append(job("c07.range", secs=900, jobs=16, n=4, d=1, metric=metric, leaf=1))
 
+# The ball tree takes a few ulps off its sphere bound (/repo d8cfbed): (d + r) * 2^-49 is not representable together with
+# integer distances, so those terms are classed as rounded ("inexact"); comparisons against them are counted in the
+# evidence.  On the integer / quarter-integer grids of these jobs the slack (< 2^-37) cannot change any decision.
+for _j in quick + thorough:
+    if _j["h"] in ("c07.knn", "c07.range") and _j["p"].get("kind", -1) in (BALL, -1) and "inexact" not in _j["allow"]:
+        _j["allow"].append("inexact")
 REG = {"C07": {"quick": quick, "thorough": thorough}}
